@@ -7,6 +7,8 @@
     iterator), resize, reserve, clear, swap, copy and assignment, List ... contain[s] exactly the
     elements, in the order, that a reference sequence contains"
                                                            -> list_step_refines, list_history_refines
+                                                              (the other list may be the list itself: lpre /
+                                                              apre accept j = i since the repairs of C04)
    the same for PoolList (in-place construction = append)  -> poollist_step_refines, poollist_history_refines
                                                               (PAppendN: every append overload, 0..7
                                                               constructor arguments; the appended element
